@@ -17,7 +17,8 @@ def case(draw, tier):
     k = draw(st.sampled_from([1, 1, 1, 2] if gm.DIM[gm.mesh_kind(desc)] < 3 else [1, 1, 1, 1, 2]))
     if gm.DIM[gm.mesh_kind(desc)] == 3 and nc > 3 and k == 2:
         k = 1
-    pre = draw(st.sampled_from(['none', 'none', 'refined', 'translated', 'mirrored', 'restrict', 'oriented', 'matmul_part']))
+    pre = draw(st.sampled_from(['none', 'none', 'refined', 'translated', 'mirrored', 'restrict', 'oriented', 'matmul_part',
+                                'used_before', 'used_before']))
     return dict(mesh=desc, tags=tg, k=k, pre=pre, times=draw(st.sampled_from(['int', 'int', 'repeat'])))
 
 
@@ -40,6 +41,14 @@ def body(c, ctx):
     elif pre == 'matmul_part' and desc['cls'].endswith('1') and m.nelements <= 8:
         # one part of m @ n: its point array ends with the other part's points, which its own cells do not use
         m = (m @ m.translated(tuple([float(np.ptp(m.p[0])) + 1.0] + [0.0] * (m.dim() - 1))))[0]
+    elif pre == 'used_before' and kind in ('line', 'tri', 'tet'):
+        # the mesh object has served before: its tables were looked at, it was refined adaptively and oriented (results discarded)
+        _ = m.facets, m.t2f, m.boundary_facets()
+        if m.dim() == 3:
+            _ = m.edges, m.t2e
+        if desc['cls'].endswith('1'):
+            m.refined(np.array([0, m.nelements - 1], dtype=np.int64))
+        m.oriented()
     elif pre == 'oriented' and kind in ('tri', 'tet') and desc['cls'].endswith('1'):
         m = m.oriented()          # cells keep the local order the library chose, no longer ascending
     else:
